@@ -33,6 +33,10 @@ ASSUMPTIONS = ["networkx DiGraph container (not its algorithms) is trusted"]
 
 def gen(rng, ctx):
     big = ctx.tier == "thorough"
+    if rng.random() < (0.004 if big else 0.001) or (ctx.gen_index == 0 and ctx.index < 4):
+        from rv.gen import libnets
+
+        return {"lib": libnets.pick(rng, ctx.tier) if ctx.gen_index else ["c17", "s27", "c432", "mux_4"][ctx.index % 4], "seed": rng.getrandbits(32), "k": rng.randint(1, 3)}
     ni = rng.randint(1, 5 if not big else 7)
     ng = rng.randint(1, 9 if not big else 16)
     cd = G.rand_circuit(rng, ni, ng, max_fanin=5, ensure_loaded=rng.random() < 0.6, p_const=0.2)
@@ -57,6 +61,18 @@ def gen(rng, ctx):
 
 
 def check(case, ctx):
+    if "lib" in case:
+        import random
+
+        from rv.gen import libnets
+
+        cd = libnets.load(ctx.cg, case["lib"])
+        c = G.build(ctx.cg, cd, "graph")
+        rr = random.Random(case["seed"])
+        nodes = [n for n, _, _ in cd["nodes"]]
+        ctx.count(f"lib:{case['lib']}")
+        queries({"kind": "lib", "k": case["k"]}, ctx, c, rr.sample(nodes, 4), [rr.sample(nodes, 3) for _ in range(2)], phase="lib:")
+        return
     cg = ctx.cg
     cd = case["c"]
     via = case["via"] if ("cyclic" not in case["kind"] or case["via"] == "sparse") else "graph"
